@@ -62,6 +62,10 @@ class Section(dict):
                 start = f'{pre}<{self.type} {self.name}>'
             else:
                 start = f'{pre}<{self.type}>'
+            if start.endswith('/>'):
+                # a type or name ending in "/" must not be read back as
+                # the empty-section marker
+                start = start[:-1] + ' >'
             result.append(start)
             pre += '  '
 
